@@ -84,6 +84,7 @@ class Models(Simd):
         R(r"as core::iter::Iterator>::fold::<", self.m_fold)
         R(r"as core::iter::Iterator>::(find|position|rposition|find_map|last|max|min|nth)(::<.*>)?$", self.m_find)
         R(r"as core::iter::Iterator>::size_hint$|as core::iter::ExactSizeIterator>::len$", self.m_size_hint)
+        R(r"as core::iter::Iterator>::by_ref$", lambda ip, fv, st, d, t, n, a, dty: a[0] if a and a[0][0] == "ref" else NotImplemented)
         # panics
         R(r"core::panicking::", self.m_panic)
         # misc no-ops
@@ -196,6 +197,8 @@ class Models(Simd):
             return ("it", "slice", ("ref", v[1], v[2], v[3]), I(v[4], v[5]), I(v[4] + v[6], v[5] + v[7]), 0)
         if v[0] == "ref":
             tgt = ip.read_path(st.frames[v[1]].get(v[2], TOP), v[3])
+            if tgt[0] == "it":
+                return v            # `by_ref()` / `(&mut iter).into_iter()`: the reference itself is the iterator
             if tgt[0] == "arr":
                 return ("it", "slice", v, I(0), I(len(tgt[1])), 0)
             if tgt[0] == "vec":
@@ -230,6 +233,10 @@ class Models(Simd):
         if ref[0] != "ref":
             return TOP
         it = ip.read_path(st.frames[ref[1]].get(ref[2], TOP), ref[3])
+        for _ in range(3):
+            if it[0] == "ref":          # a `&mut I` used as an iterator: advance the iterator it points to
+                ref = it
+                it = ip.read_path(st.frames[ref[1]].get(ref[2], TOP), ref[3])
         item, new = self.step(ip, st, it)
         if new is not None:
             cur = st.frames[ref[1]].get(ref[2], TOP)
@@ -617,7 +624,7 @@ class Models(Simd):
         self._collect_flags = {"fail": False, "all_ok": True}
         if wrapped and getattr(ip, "exact_small_vecs", False) and a[0][0] == "it":
             n_lo, n_hi = self.iter_len(ip, st, a[0])
-            if n_lo == n_hi and 0 < n_hi <= 8:
+            if n_lo == n_hi and 0 < n_hi <= getattr(ip, "exact_vec_limit", 8):
                 items, cur, exact, may_fail = [], a[0], True, False
                 for _ in range(n_hi + 1):
                     item, new = self.step(ip, st, cur)
@@ -767,6 +774,21 @@ class Models(Simd):
         if it[0] != "it":
             return NotImplemented
         acc, clo = a[1], a[2]
+        if getattr(ip, "exact_small_vecs", False):
+            # domain engines: an iterator of exactly known length is folded element by element (no summarisation)
+            n_lo, n_hi = self.iter_len(ip, st, it)
+            if n_lo == n_hi and n_hi <= 4 * getattr(ip, "exact_vec_limit", 8):
+                cur, ok = it, True
+                for _ in range(n_hi):
+                    item, new = self.step(ip, st, cur)
+                    if item[0] != "en" or len(item[1]) != 1 or item[1][0][0] != 1:
+                        ok = False
+                        break
+                    acc = self.apply_closure(ip, st, clo, [acc, item[1][0][1][0]])
+                    cur = new if new is not None else cur
+                if ok:
+                    return acc
+                acc = a[1]
         summarised = False
         for k in range(80):
             item, new = self.step(ip, st, it)
@@ -796,7 +818,7 @@ class Models(Simd):
                 self._collect_flags["fail"] = True       # unknown iterator: a failure item cannot be excluded
             return ("vec", TOP, 0, 2**32)
         n_lo, n_hi = self.iter_len(ip, st, it)
-        if n_lo == n_hi and 0 < n_hi <= 8 and wrapped is None and getattr(ip, "exact_small_vecs", False):
+        if n_lo == n_hi and 0 < n_hi <= getattr(ip, "exact_vec_limit", 8) and wrapped is None and getattr(ip, "exact_small_vecs", False):
             # a short iterator of exactly known length: enumerate it (the Vec is then an array of its elements, no summary)
             items, cur, exact = [], it, True
             for _ in range(n_hi + 1):
